@@ -139,7 +139,7 @@ func checkC05(c *Ctx) {
 	c.Rule("C05.lw", "last-writer tables: in every dependency scanner (a function of package deps taking an instruction and a key->instruction table) some loop over the instruction's written keys (outRegs / stores) records the current instruction under that key on every path of the iteration; tables hold writers only")
 	c.Rule("C05.dir", "addDep(first, second) orders first before second: scanners called in a forward walk add (table entry, current), scanners called in a backward walk add (current, table entry)")
 	c.Rule("C05.kinds", "newBlock calls, unconditionally and with its own instruction sequence, a finder for each dependency kind (true, anti, output, control, special); each finder walks the whole block calling its register and memory scanners")
-	c.Rule("C05.ctl", "findControlDeps: when the last instruction has jump targets every other instruction gets an edge (ins, last)")
+	c.Rule("C05.ctl", "findControlDeps: when the last instruction has jump targets every other instruction gets an edge (ins, last): the call sits in a full loop over instrs[:len-1], under no condition of its own, and the loop is not left early")
 	c.Rule("C05.bnd", "LowerBound = 1 + greatest index in depsBack (0 if none), UpperBound = least index in depsFwd - 1 (Num()-1 if none); findBound keeps the candidate preferred by the comparator")
 	c.Rule("C05.adddep", "addDep(first, second) records second in first.depsFwd and first in second.depsBack")
 
@@ -326,6 +326,7 @@ func checkC05(c *Ctx) {
 			a := cs.Common().Args
 			// first arg: element of instrs[:len-1]
 			fromPrefix := false
+			var ctlLoop *RangeLoop
 			if ld, ok := Unwrap(a[0]).(*ssa.UnOp); ok && ld.Op == token.MUL {
 				if ia, ok := ld.X.(*ssa.IndexAddr); ok {
 					if sl, ok := ia.X.(*ssa.Slice); ok && sl.X == instrs && sl.Low == nil && sl.High != nil &&
@@ -334,6 +335,7 @@ func checkC05(c *Ctx) {
 						for _, l := range RangeLoops(fc) {
 							if l.Over == ssa.Value(sl) && l.Key == ia.Index {
 								fromPrefix = true
+								ctlLoop = l
 							}
 						}
 					}
@@ -360,7 +362,33 @@ func checkC05(c *Ctx) {
 					}
 				}
 			}
+			// every iteration adds its edge: inside the loop the call is not under a
+			// condition of its own and nothing leaves the loop early
+			skipped := ""
+			if ctlLoop != nil {
+				inLoop := LoopBlocks(ctlLoop.Header)
+				for _, g := range GuardsOf(cs.Block()) {
+					if gb := g.If.Block(); inLoop[gb] && gb != ctlLoop.Header {
+						skipped = "the edge is added only under a condition on the instruction (" + c.Prog.Pos(g.If.Pos()) + ")"
+					}
+				}
+				for b := range inLoop {
+					if b == ctlLoop.Header {
+						continue
+					}
+					for _, sc := range b.Succs {
+						if !inLoop[sc] {
+							skipped = "the loop over the instructions is left early"
+						}
+					}
+					if _, isRet := b.Instrs[len(b.Instrs)-1].(*ssa.Return); isRet {
+						skipped = "the loop over the instructions is left early"
+					}
+				}
+			}
 			switch {
+			case skipped != "":
+				c.Fail("C05.ctl", key, c.Prog.Pos(cs.Pos()), skipped+": an instruction without the edge may be moved behind the jump")
 			case !isLast(a[1]):
 				c.Fail("C05.ctl", key, c.Prog.Pos(cs.Pos()), "the edge does not end at the last instruction of the block")
 			case !fromPrefix:
@@ -810,6 +838,16 @@ func specialWitness(fn *ssa.Function, cs CallSite) (bool, string) {
 		}
 	}
 	if last == nil {
+		// the remembered instruction kept in a field of a local record
+		for i, x := range a {
+			if cell, ok := fieldCellOf(x); ok {
+				kind, nonNil, why := cellWitness(fn, cs, cell, x)
+				if why != "" {
+					return false, why
+				}
+				return specialVerdict(fn, cs, kind, nonNil, a[1-i])
+			}
+		}
 		return false, "neither end of the edge is a remembered special instruction"
 	}
 	// kind of `last`: every non-nil incoming value is stored under insMemOrder / insSpecial of that value
@@ -863,12 +901,51 @@ func specialWitness(fn *ssa.Function, cs CallSite) (bool, string) {
 	if !visit(last, map[*ssa.Phi]bool{}) || kind == "" || kind == "mixed" {
 		return false, "the remembered instruction is not recorded exclusively under insMemOrder(x) or insSpecial(x)"
 	}
-	nonNil, memAcc := false, false
+	// remembered in an earlier iteration: a value assigned in the current one (a
+	// merge inside the loop body, not at its header) must not be the instruction
+	// the edge is drawn to - that would be an edge from an instruction to itself
+	if selfEdgePossible(fn, last, other, map[*ssa.Phi]bool{}) {
+		return false, "the instruction may have been remembered in this very iteration: the edge would lead from the instruction to itself"
+	}
+	nonNil := false
 	for _, g := range GuardsOf(cs.Block()) {
 		if x, nn, ok := NilCheck(g.Cond); ok && x == ssa.Value(last) && nn == g.Outcome {
 			nonNil = true
 		}
 	}
+	return specialVerdict(fn, cs, kind, nonNil, other)
+}
+
+// selfEdgePossible: can the merge p carry, without passing a loop header, the
+// value other (the current element of the walk)?
+func selfEdgePossible(fn *ssa.Function, p *ssa.Phi, other ssa.Value, seen map[*ssa.Phi]bool) bool {
+	if seen[p] {
+		return false
+	}
+	seen[p] = true
+	for _, pred := range p.Block().Preds {
+		if p.Block().Dominates(pred) {
+			return false // a loop-header merge: its values come from before the loop or from earlier iterations
+		}
+	}
+	for _, e := range p.Edges {
+		if q, ok := e.(*ssa.Phi); ok {
+			if selfEdgePossible(fn, q, other, seen) {
+				return true
+			}
+			continue
+		}
+		if !IsNilConst(e) && (e == other || SameValue(e, other)) {
+			return true
+		}
+	}
+	return false
+}
+
+// specialVerdict: the remembered instruction (of the given kind, non-nil or
+// not at the site) may be linked with other.
+func specialVerdict(fn *ssa.Function, cs CallSite, kind string, nonNil bool, other ssa.Value) (bool, string) {
+	memAcc := false
 	// isMemAccess(other) somewhere among the conditions leading here (also as part of a disjunction)
 	for _, b := range fn.Blocks {
 		iff, ok := b.Instrs[len(b.Instrs)-1].(*ssa.If)
@@ -888,6 +965,233 @@ func specialWitness(fn *ssa.Function, cs CallSite) (bool, string) {
 		return false, "a memory-ordering instruction is made dependent on an instruction without testing that it accesses memory (or orders memory itself)"
 	}
 	return true, ""
+}
+
+// fieldCell is a field of a local record (an Alloc of the function).
+type fieldCell struct {
+	alloc *ssa.Alloc
+	field int
+}
+
+func fieldCellOf(v ssa.Value) (fieldCell, bool) {
+	u, ok := v.(*ssa.UnOp)
+	if !ok || u.Op != token.MUL {
+		return fieldCell{}, false
+	}
+	fa, ok := u.X.(*ssa.FieldAddr)
+	if !ok {
+		return fieldCell{}, false
+	}
+	al, ok := fa.X.(*ssa.Alloc)
+	return fieldCell{al, fa.Field}, ok
+}
+
+// cellWitness is specialWitness for a remembered instruction kept in a field of
+// a local record instead of a local variable: every non-nil value written to
+// the field - in the function or in a helper of its package the record is
+// handed to - is written under insMemOrder(x) / insSpecial(x) of that value,
+// and the field is tested non-nil on the way to the site with no write to it
+// in between.
+func cellWitness(fn *ssa.Function, cs CallSite, cell fieldCell, arg ssa.Value) (kind string, nonNil bool, why string) {
+	type write struct {
+		val ssa.Value       // nil: the field is cleared
+		at  ssa.Instruction // in fn: the store, or the call that hands the record out
+		in  *ssa.BasicBlock // the block of the store itself (in fn or in the helper)
+	}
+	var writes []write
+	bad := ""
+	var scan func(rec ssa.Value, at ssa.Instruction, depth int)
+	scan = func(rec ssa.Value, at ssa.Instruction, depth int) {
+		if rec.Referrers() == nil {
+			return
+		}
+		for _, r := range *rec.Referrers() {
+			site := at
+			if site == nil {
+				site = r
+			}
+			switch x := r.(type) {
+			case *ssa.FieldAddr:
+				if x.Field != cell.field || x.Referrers() == nil {
+					continue
+				}
+				for _, rr := range *x.Referrers() {
+					s2 := at
+					if s2 == nil {
+						s2 = rr
+					}
+					switch y := rr.(type) {
+					case *ssa.UnOp, *ssa.DebugRef:
+					case *ssa.Store:
+						if y.Addr == ssa.Value(x) {
+							writes = append(writes, write{y.Val, s2, y.Block()})
+						} else {
+							bad = "the address of the field is stored"
+						}
+					default:
+						bad = "the address of the field escapes"
+					}
+				}
+			case *ssa.Store:
+				if x.Addr != rec {
+					bad = "the record's address is stored"
+					continue
+				}
+				if k, ok := x.Val.(*ssa.Const); ok && k.Value == nil {
+					writes = append(writes, write{nil, site, x.Block()})
+				} else {
+					bad = "the record is overwritten as a whole"
+				}
+			case *ssa.UnOp, *ssa.DebugRef:
+			case *ssa.Call:
+				g := x.Call.StaticCallee()
+				if g == nil || g.Blocks == nil || depth > 0 || PkgPathOf(g) != PkgPathOf(fn) {
+					bad = "the record is handed to a function that cannot be followed"
+					continue
+				}
+				for i, arg := range x.Call.Args {
+					if arg == rec && i < len(g.Params) {
+						scan(g.Params[i], site, depth+1)
+					}
+				}
+			default:
+				bad = "the record is used in a way that cannot be followed"
+			}
+		}
+	}
+	scan(cell.alloc, nil, 0)
+	if bad != "" {
+		return "", false, "the remembered instruction is kept in a record and " + bad
+	}
+	for _, w := range writes {
+		if w.val == nil || IsNilConst(w.val) {
+			continue
+		}
+		k := ""
+		for _, g := range GuardsOf(w.in) {
+			call, ok := g.Cond.(*ssa.Call)
+			if !ok || !g.Outcome {
+				continue
+			}
+			f := call.Call.StaticCallee()
+			if f == nil || len(call.Call.Args) != 1 || call.Call.Args[0] != w.val {
+				continue
+			}
+			if pk := specialPredicateKind(f); pk == "memorder" || pk == "special" {
+				k = pk
+			}
+		}
+		if k == "" || (kind != "" && kind != k) {
+			return "", false, "the remembered instruction is not recorded exclusively under insMemOrder(x) or insSpecial(x)"
+		}
+		kind = k
+	}
+	if kind == "" {
+		return "", false, "nothing is ever remembered in the field"
+	}
+	// non-nil on the way to the site, and unchanged since the test
+	idx := func(in ssa.Instruction) int {
+		for i, x := range in.Block().Instrs {
+			if x == in {
+				return i
+			}
+		}
+		return -1
+	}
+	for _, g := range GuardsOf(cs.Block()) {
+		x, nn, ok := NilCheck(g.Cond)
+		if !ok || nn != g.Outcome {
+			continue
+		}
+		c2, isCell := fieldCellOf(x)
+		if !isCell || c2 != cell {
+			continue
+		}
+		gb := g.If.Block()
+		stable := true
+		for _, w := range writes {
+			var start []*ssa.BasicBlock
+			switch wb := w.at.Block(); {
+			case wb == gb:
+				if ld, ok := x.(*ssa.UnOp); !ok || ld.Block() != gb || idx(w.at) > idx(ld) {
+					stable = false
+				}
+				continue
+			case wb == cs.Block():
+				if idx(w.at) < idx(cs.Instr) {
+					stable = false
+					continue
+				}
+				start = wb.Succs
+			default:
+				start = []*ssa.BasicBlock{wb}
+			}
+			seen := map[*ssa.BasicBlock]bool{gb: true}
+			for len(start) > 0 {
+				b := start[0]
+				start = start[1:]
+				if seen[b] {
+					continue
+				}
+				seen[b] = true
+				if b == cs.Block() {
+					stable = false
+					break
+				}
+				start = append(start, b.Succs...)
+			}
+		}
+		// the value handed to addDep is read at the site (or is the tested read)
+		if ld, ok := arg.(*ssa.UnOp); ok && (ld == x || ld.Block() == cs.Block()) && stable {
+			nonNil = true
+		}
+	}
+	// remembered in an earlier iteration: no non-nil write reaches the site without
+	// passing the header of the loop over the instructions
+	for _, hb := range fn.Blocks {
+		isHeader := false
+		for _, pred := range hb.Preds {
+			if hb.Dominates(pred) {
+				isHeader = true
+			}
+		}
+		if !isHeader {
+			continue
+		}
+		l := struct{ Header *ssa.BasicBlock }{hb}
+		inLoop := LoopBlocks(l.Header)
+		if !inLoop[cs.Block()] {
+			continue
+		}
+		for _, w := range writes {
+			if w.val == nil || IsNilConst(w.val) || !inLoop[w.at.Block()] {
+				continue
+			}
+			var start []*ssa.BasicBlock
+			if w.at.Block() == cs.Block() {
+				if idx(w.at) < idx(cs.Instr) {
+					return "", false, "the instruction may have been remembered in this very iteration: the edge would lead from the instruction to itself"
+				}
+				start = w.at.Block().Succs
+			} else {
+				start = []*ssa.BasicBlock{w.at.Block()}
+			}
+			seen := map[*ssa.BasicBlock]bool{l.Header: true}
+			for len(start) > 0 {
+				b := start[0]
+				start = start[1:]
+				if seen[b] || !inLoop[b] {
+					continue
+				}
+				seen[b] = true
+				if b == cs.Block() {
+					return "", false, "the instruction may have been remembered in this very iteration: the edge would lead from the instruction to itself"
+				}
+				start = append(start, b.Succs...)
+			}
+		}
+	}
+	return kind, nonNil, ""
 }
 
 // guardOfEdge returns the guard established by the edge pred->succ itself.
